@@ -101,7 +101,9 @@ def run_case(case, drv):
                                                      if case["obj_stats"] else [])
     for k in keys:
         if k == "optimality_gap":
-            got = F(rep[k]) if k in rep else None
+            # absent, None or infinite = "there is no second value"
+            raw = rep.get(k)
+            got = None if raw is None or (isinstance(raw, float) and (raw != raw or raw in (float("inf"), float("-inf")))) else F(raw)
         else:
             if k not in rep:
                 res.fail(f"report:{k}", f"report lacks field {k}")
@@ -115,6 +117,14 @@ def run_case(case, drv):
                 if float(rep[k]) != float(want[k]):
                     res.fail("report:density", f"report density={rep[k]} but definition gives {fs(want[k])}")
                 continue
+        if k == "expected_value" and got is not None and want[k] is not None:
+            # a mean may be accumulated in another order: equal up to a relative 1e-12 (the data are dyadic, any exact order gives equality)
+            close = abs(got - want[k]) <= Fraction(1, 10 ** 12) * max(1, abs(want[k]))
+            if not close:
+                res.fail(f"report:{k}", f"report {k}={fs(got)} but brute force gives {fs(want[k])}")
+            if abs(got - model[k]) > Fraction(1, 10 ** 12) * max(1, abs(model[k])):
+                res.disagree(f"report.{k}", got, model[k])
+            continue
         if got != model[k]:
             res.disagree(f"report.{k}", got, model[k])
         if got != want[k]:
